@@ -15,6 +15,13 @@ def family(name):
     return importlib.import_module("vf.tags." + name)
 
 
+MISSING = {}      # family -> import error text; a family that cannot be imported must never vanish silently
+
+
+class FamilyMissing(Exception):
+    pass
+
+
 def available(prop):
     import os
     only = [x for x in os.environ.get("VERIF_FAMILIES", "").split(",") if x]
@@ -24,7 +31,8 @@ def available(prop):
             continue
         try:
             m = family(f)
-        except ImportError:
+        except ImportError as e:
+            MISSING[f] = "%s: %s" % (type(e).__name__, e)
             continue
         if hasattr(m, "run_" + prop):
             out.append(f)
@@ -32,6 +40,10 @@ def available(prop):
 
 
 def plan(prop, tier, seed):
+    available(prop)
+    if MISSING:
+        # fail closed: the family's cases and its REQUIRED counters would otherwise disappear and the check report "held"
+        raise FamilyMissing("family module(s) could not be imported: %r" % (MISSING,))
     descs = []
     for f in available(prop):
         for d in getattr(family(f), "plan_" + prop)(tier):
@@ -42,6 +54,7 @@ def plan(prop, tier, seed):
 
 
 def run(prop, desc, R, rng):
+    R.seen("families_run", desc["family"])
     getattr(family(desc["family"]), "run_" + prop)(desc, R, rng)
 
 
